@@ -3,12 +3,24 @@ import NA.Model.PanOs
 C03, generated names (`genUniqRuleNames`, `genUniqGroupNames`): the search for `name-i` always
 finds a free name, new names avoid the device's names and are pairwise distinct.
 The only fact about `fmt.Sprintf("%s-%d")` that is used is that different numbers give
-different strings (hypothesis `SuffixInj`).  Core Lean only.
+different strings (`suffixInj`, proved for Lean's decimal notation).  Core Lean only.
 -/
 namespace NA.PanOs
 
 /-- `fmt.Sprintf("%s-%d", name, i)` is injective in `i`. -/
 def SuffixInj : Prop := ∀ (name : String) (i j : Nat), s!"{name}-{i}" = s!"{name}-{j}" → i = j
+
+/-- Decimal notation is injective, so `name-i` determines `i`. -/
+theorem suffixInj : SuffixInj := by
+  intro name i j h
+  have h1 : toString name ++ toString "-" ++ toString i = toString name ++ toString "-" ++ toString j := h
+  rw [String.append_right_inj] at h1
+  have h2 : (Nat.repr i).toList = (Nat.repr j).toList := by
+    have : Nat.repr i = Nat.repr j := h1
+    rw [this]
+  rw [Nat.toList_repr, Nat.toList_repr] at h2
+  have := congrArg (fun l => Nat.ofDigitChars 10 l 0) h2
+  simpa [Nat.ofDigitChars_ten_toDigits] using this
 
 /-- Pigeonhole: among `l.length + 1` values of an injective sequence one is not in `l`. -/
 theorem exists_not_mem_of_injective {α : Type} (l : List α) :
